@@ -1,5 +1,6 @@
 import GS.Model.Wire
 import GSProofs.Lemmas.WireBasic
+import GSProofs.Lemmas.WireMsg
 /-!
 # C11 — Wire encoding round-trips every well-formed message
 
@@ -70,5 +71,296 @@ same members), whatever order the Go map iteration produced -/
 theorem ext_cidset (cs : List Bytes) :
     ∃ ds, decodeCidSet (encodeCidSet cs) = some ds ∧ ds.Nodup ∧ ∀ c, c ∈ ds ↔ c ∈ cs :=
   ⟨dedup cs, decodeCidSet_encode cs, nodup_dedup cs, fun c => mem_dedup c cs⟩
+
+/-! ## the codec: DAG-CBOR round trip -/
+
+/-- canonical = well-formed (`wfVal`), nested at most 1024 deep, and every map already in the
+encoder's key order (so sorting changes nothing) -/
+def canonical (v : Val) : Prop := wfVal v = true ∧ depthVal v ≤ maxDepth ∧ sortVal v = v
+
+/-- **cbor_roundtrip** — for canonical values, and followed by arbitrary further bytes. -/
+theorem cbor_roundtrip (v : Val) (rest : Bytes) (h : canonical v) :
+    decodeVal (encodeVal v ++ rest) = some (v, rest) := by
+  have := decodeVal_encodeVal v rest h.1 h.2.1
+  rwa [h.2.2] at this
+
+/-- the general form: any key order in, the encoder's order out (`sortVal`). -/
+theorem cbor_roundtrip_sorted (v : Val) (rest : Bytes) (hw : wfVal v = true) (hd : depthVal v ≤ maxDepth) :
+    decodeVal (encodeVal v ++ rest) = some (sortVal v, rest) :=
+  decodeVal_encodeVal v rest hw hd
+
+/-- floats that are not finite do not round-trip: the encoder writes them, the decoder rejects them
+(checked on the real codec by the `rtx` cases of the `wire` stream) -/
+theorem cbor_roundtrip_nan_counterexample :
+    (decodeVal (encodeVal (.float 0x7ff8000000000000))).isNone = true := by decide +kernel
+
+/-! ### extension payloads through the codec -/
+
+theorem ext_dedupkey_wire (key rest : Bytes) (h : key.length ≤ maxStrLen) :
+    (decodeVal (encodeVal (encodeDedupKey key) ++ rest)).map (fun r => (decodeDedupKey r.1, r.2))
+      = some (some key, rest) := by
+  rw [decodeVal_encodeVal _ rest (by simp [encodeDedupKey, wfVal, h]) (by simp [encodeDedupKey, depthVal])]
+  simp [encodeDedupKey, sortVal, decodeDedupKey]
+
+theorem ext_firstblocks_wire (n : Int) (rest : Bytes) (hlo : -9223372036854775808 ≤ n) (hhi : n ≤ 9223372036854775807) :
+    (decodeVal (encodeVal (encodeFirstBlocks n) ++ rest)).map (fun r => (decodeFirstBlocks r.1, r.2))
+      = some (some n, rest) := by
+  have hw : wfVal (encodeFirstBlocks n) = true := by
+    unfold encodeFirstBlocks intToVal
+    split <;> simp [wfVal] <;> omega
+  have hd : depthVal (encodeFirstBlocks n) ≤ maxDepth := by
+    unfold encodeFirstBlocks intToVal
+    split <;> simp [depthVal]
+  rw [decodeVal_encodeVal _ rest hw hd]
+  have : sortVal (encodeFirstBlocks n) = encodeFirstBlocks n := sortVal_intToVal n
+  simp [this, ext_firstblocks n hlo hhi]
+
+/-! ## messages -/
+
+theorem allSome_inverse {α β : Type} {f : α → Option β} {g : β → Option α} : ∀ {xs : List α} {ys : List β},
+    allSome (xs.map f) = some ys → (∀ x ∈ xs, ∀ y, f x = some y → g y = some x) →
+    allSome (ys.map g) = some xs
+  | [], ys, h, _ => by
+    simp only [List.map_nil, allSome, Option.some.injEq] at h
+    subst h; rfl
+  | x :: xs, ys, h, hall => by
+    simp only [List.map_cons] at h
+    cases hfx : f x with
+    | none => rw [hfx] at h; simp [allSome] at h
+    | some y =>
+      rw [hfx] at h
+      simp only [allSome] at h
+      cases hr : allSome (xs.map f) with
+      | none => rw [hr] at h; cases h
+      | some ys' =>
+        rw [hr] at h
+        simp only [Option.some.injEq] at h
+        subst h
+        have h1 := hall x List.mem_cons_self y hfx
+        have h2 := allSome_inverse (g := g) hr (fun x' hx' => hall x' (List.mem_cons_of_mem _ hx'))
+        simp only [List.map_cons, allSome, h1, h2]
+
+theorem normReq_id (r : Request) : (normReq r).id = r.id := by
+  unfold normReq; cases r.type <;> rfl
+
+theorem encodeRaw_nonempty (v : Val) : 0 < (encodeRaw v).length := by
+  have := need_le v
+  have := need_pos v
+  omega
+
+/-- decoding the front of a stream that starts with the encoding of a well-formed message -/
+theorem decodeOne_encode (hash : Hash) (m : Msg) (rest : Bytes) (h : wf hash m = true) :
+    ∃ bs, encodeMsg m = some bs ∧ 0 < bs.length ∧ decodeOne hash (bs ++ rest) = .ok (norm m) rest := by
+  simp only [wf, Bool.and_eq_true] at h
+  obtain ⟨⟨⟨⟨⟨⟨hdq, hwq⟩, hds⟩, hws⟩, hdb⟩, hwb⟩, hv⟩ := h
+  cases hmv : msgVal m with
+  | none => rw [hmv] at hv; cases hv
+  | some v =>
+    rw [hmv] at hv
+    simp only [Bool.and_eq_true, decide_eq_true_eq] at hv
+    obtain ⟨⟨⟨hwf, hdepth⟩, hsize⟩, hcost⟩ := hv
+    unfold msgVal at hmv
+    cases hti : toIPLD m with
+    | none => rw [hti] at hmv; cases hmv
+    | some b =>
+      rw [hti] at hmv
+      simp only at hmv
+      refine ⟨frame (encodeVal v), by simp [encodeMsg, hti, hmv], frame_length_pos _, ?_⟩
+      have hpos : 0 < (encodeVal v).length := encodeRaw_nonempty _
+      -- the shape of `b`
+      unfold toIPLD at hti
+      cases hbl : allSome (m.blocks.map blkToB) with
+      | none => rw [hbl] at hti; cases hti
+      | some bbs =>
+        rw [hbl] at hti
+        simp only [Option.some.injEq] at hti
+        subst hti
+        -- frame
+        unfold decodeOne
+        rw [readFrame_frame _ rest hpos hsize]
+        simp only
+        -- codec + schema layer
+        have hsel : ∀ rs, (Option.map (fun x => List.map reqToB x) (nonEmpty m.requests)) = some rs →
+            ∀ r ∈ rs, r.sel ≠ some .null := by
+          intro rs hrs r hr
+          unfold nonEmpty at hrs
+          split at hrs
+          · cases hrs
+          · simp only [Option.map_some, Option.some.injEq] at hrs
+            subst hrs
+            obtain ⟨q, hq, rfl⟩ := List.mem_map.1 hr
+            have := List.all_eq_true.1 hwq q hq
+            simp only [wfReq, Bool.and_eq_true] at this
+            intro e
+            simp only [reqToB] at e
+            rw [e] at this
+            simp [selNotNull] at this
+        have hdec : decodePayload hash (encodeVal v) = some (norm m) := by
+          unfold decodePayload
+          rw [decodeBlock_encodeVal v hwf hdepth hcost]
+          simp only
+          rw [valToBMsg_sort _ v hmv hsel]
+          simp only
+          -- fromIPLD
+          unfold fromIPLD
+          have hreq : allSome (((normB ⟨(nonEmpty m.requests).map (·.map reqToB),
+              (nonEmpty m.responses).map (·.map rspToB), nonEmpty bbs⟩).req.getD []).map reqFromB)
+              = some (m.requests.map normReq) := by
+            have : (normB ⟨(nonEmpty m.requests).map (·.map reqToB),
+              (nonEmpty m.responses).map (·.map rspToB), nonEmpty bbs⟩).req.getD []
+                = m.requests.map (fun r => normBReq (reqToB r)) := by
+              simp only [normB, nonEmpty]
+              cases m.requests <;> simp
+            rw [this, List.map_map]
+            exact allSome_map_eq (fun r hr => reqFromB_norm r (List.all_eq_true.1 hwq r hr))
+          have hrsp : allSome (((normB ⟨(nonEmpty m.requests).map (·.map reqToB),
+              (nonEmpty m.responses).map (·.map rspToB), nonEmpty bbs⟩).rsp.getD []).map rspFromB)
+              = some (m.responses.map normRsp) := by
+            have : (normB ⟨(nonEmpty m.requests).map (·.map reqToB),
+              (nonEmpty m.responses).map (·.map rspToB), nonEmpty bbs⟩).rsp.getD []
+                = m.responses.map (fun r => normBRsp (rspToB r)) := by
+              simp only [normB, nonEmpty]
+              cases m.responses <;> simp
+            rw [this, List.map_map]
+            exact allSome_map_eq (fun r hr => rspFromB_norm r (List.all_eq_true.1 hws r hr))
+          have hblk : allSome (((normB ⟨(nonEmpty m.requests).map (·.map reqToB),
+              (nonEmpty m.responses).map (·.map rspToB), nonEmpty bbs⟩).blk.getD []).map (blkFromB hash))
+              = some m.blocks := by
+            have : (normB ⟨(nonEmpty m.requests).map (·.map reqToB),
+              (nonEmpty m.responses).map (·.map rspToB), nonEmpty bbs⟩).blk.getD [] = bbs := by
+              simp only [normB]
+              exact nonEmpty_getD bbs
+            rw [this]
+            refine allSome_inverse hbl ?_
+            intro x hx y hy
+            obtain ⟨bb, hbb, hfrom⟩ := blkFromB_blkToB hash x (List.all_eq_true.1 hwb x hx)
+            rw [hbb] at hy
+            simp only [Option.some.injEq] at hy
+            subst hy
+            exact hfrom
+          rw [hreq, hrsp, hblk]
+          simp only
+          have d1 : dedupLast (·.id) (m.requests.map normReq) = m.requests.map normReq :=
+            dedupLast_of_distinct _ (by rw [distinctBy_map _ _ normReq_id]; exact hdq)
+          have d2 : dedupLast (·.id) (m.responses.map normRsp) = m.responses.map normRsp :=
+            dedupLast_of_distinct _ (by rw [distinctBy_map (·.id) normRsp (fun _ => rfl)]; exact hds)
+          have d3 : dedupLast (·.cid) m.blocks = m.blocks := dedupLast_of_distinct _ hdb
+          rw [d1, d2, d3]
+          rfl
+        rw [hdec]
+
+/-- **C11.roundtrip** — "Any well-formed message … decodes from its encoding to an equivalent
+message": for every hash function and every well-formed `m` (`wf`), `ToNet` succeeds and `FromNet`
+of its output is `norm m` — the same requests by ID (a cancel reduced to its ID, an update to ID +
+extensions), responses (status, metadata in order), extensions by name with their data re-sorted into
+canonical map order and a null payload read back as nil, and blocks by CID. -/
+theorem roundtrip (hash : Hash) (m : Msg) (h : wf hash m = true) :
+    ∃ bs, encodeMsg m = some bs ∧ decodeMsg hash bs = some (norm m) := by
+  obtain ⟨bs, he, _, hd⟩ := decodeOne_encode hash m [] h
+  refine ⟨bs, he, ?_⟩
+  rw [List.append_nil] at hd
+  simp [decodeMsg, hd]
+
+theorem decodeStreamFuel_encode (hash : Hash) : ∀ (ms : List Msg) (fuel : Nat),
+    (∀ m ∈ ms, wf hash m = true) → ms.length < fuel →
+    ∃ frames, allSome (ms.map encodeMsg) = some frames ∧
+      decodeStreamFuel hash fuel frames.flatten = (ms.map norm, true)
+  | [], fuel, _, hf => by
+    refine ⟨[], rfl, ?_⟩
+    obtain ⟨f, rfl⟩ : ∃ f, fuel = f + 1 := ⟨fuel - 1, by simp at hf; omega⟩
+    simp [decodeStreamFuel, decodeOne, readFrame]
+  | m :: ms, fuel, hall, hf => by
+    obtain ⟨f, rfl⟩ : ∃ f, fuel = f + 1 := ⟨fuel - 1, by simp at hf; omega⟩
+    obtain ⟨frames, hfr, hdec⟩ := decodeStreamFuel_encode hash ms f
+      (fun m' hm' => hall m' (List.mem_cons_of_mem _ hm')) (by simp at hf; omega)
+    obtain ⟨bs, he, _, hd⟩ := decodeOne_encode hash m frames.flatten (hall m List.mem_cons_self)
+    refine ⟨bs :: frames, by simp [allSome, he, hfr], ?_⟩
+    simp only [List.flatten_cons, decodeStreamFuel, hd, hdec, List.map_cons]
+
+/-- **C11.stream** — "a stream of length-prefixed messages decodes back one by one in order": the
+concatenated encodings of well-formed messages decode, with one reader, to the normal forms in the
+same order, and the stream then ends cleanly. -/
+theorem stream (hash : Hash) (ms : List Msg) (h : ∀ m ∈ ms, wf hash m = true) :
+    ∃ frames, allSome (ms.map encodeMsg) = some frames ∧
+      decodeStream hash frames.flatten = (ms.map norm, true) := by
+  obtain ⟨frames, hfr, _⟩ := decodeStreamFuel_encode hash ms (ms.length + 1) h (by omega)
+  refine ⟨frames, hfr, ?_⟩
+  unfold decodeStream
+  -- every frame has at least one byte, so the fuel `length + 1` exceeds the number of messages
+  have hlen : ms.length ≤ frames.flatten.length := by
+    have key : ∀ (ms : List Msg) (frames : List Bytes), (∀ m ∈ ms, wf hash m = true) →
+        allSome (ms.map encodeMsg) = some frames → ms.length ≤ frames.flatten.length := by
+      intro ms
+      induction ms with
+      | nil => intro frames _ _; simp
+      | cons m ms ih =>
+        intro frames hall hfr
+        obtain ⟨bs, he, hpos, _⟩ := decodeOne_encode hash m [] (hall m List.mem_cons_self)
+        simp only [List.map_cons, he, allSome] at hfr
+        cases hr : allSome (ms.map encodeMsg) with
+        | none => rw [hr] at hfr; cases hfr
+        | some fr' =>
+          rw [hr] at hfr
+          simp only [Option.some.injEq] at hfr
+          subst hfr
+          have := ih fr' (fun m' hm' => hall m' (List.mem_cons_of_mem _ hm')) hr
+          simp only [List.length_cons, List.flatten_cons, List.length_append]
+          omega
+    exact key ms frames h hfr
+  obtain ⟨frames', hfr', hdec⟩ := decodeStreamFuel_encode hash ms (frames.flatten.length + 1) h (by omega)
+  rw [hfr] at hfr'
+  simp only [Option.some.injEq] at hfr'
+  subst hfr'
+  exact hdec
+
+/-! ## what the hypotheses exclude (each checked on the real code by the `rtx` cases) -/
+
+/-- a frame above 4 MiB is rejected by the reader, whatever it contains: `ToNet` has no size check,
+so a message whose encoding is larger does not round-trip (hence `wf` demands the size bound) -/
+theorem oversize_frame_rejected (p rest : Bytes) (h : maxMsgSize < p.length) (h2 : p.length < 2 ^ 63) :
+    readFrame (frame p ++ rest) = .err := by
+  unfold readFrame frame
+  have hv : uvarint (putUvarint p.length ++ (p ++ rest)) = some (p.length, p ++ rest) :=
+    uvarint_put p.length (p ++ rest) h2
+  cases hbs : putUvarint p.length ++ p ++ rest with
+  | nil =>
+    have := putUvarint_ne_nil p.length
+    cases hq : putUvarint p.length with
+    | nil => exact absurd hq this
+    | cons a b => rw [hq] at hbs; simp at hbs
+  | cons a b =>
+    simp only
+    rw [← hbs, List.append_assoc, hv]
+    have h0 : ¬ (p.length = 0) := by
+      have : maxMsgSize = 4194304 := rfl
+      omega
+    simp [h0, h]
+
+def noHash : Hash := fun _ _ _ => none
+def id16 : Bytes := [0, 1, 2, 3, 4, 5, 6, 7, 8, 9, 10, 11, 12, 13, 14, 15]
+
+/-- a request whose selector is the null node encodes, but the result does not decode
+(`optional Any` is not nullable): the full statement without `selNotNull` is false -/
+theorem roundtrip_null_selector_counterexample :
+    (encodeMsg { requests := [{ id := id16, type := .new, selector := some .null }] }).isSome = true ∧
+    ((encodeMsg { requests := [{ id := id16, type := .new, selector := some .null }] }).bind
+      (decodeMsg noHash)).isNone = true := by
+  constructor <;> decide +kernel
+
+/-- non-vacuity: a message with a new request (priority, root, selector, two extensions one of them
+nil), an update, a cancel, a response with metadata, and an identity-hash block is well-formed -/
+def idHash : Hash := fun code _ data => if code = 0 then some data else none
+def sampleCid : Bytes := [1, 0x55, 0, 3, 0x61, 0x62, 0x63]
+def sampleMsg : Msg :=
+  { requests := [
+      { id := id16, type := .new, priority := -5, root := some sampleCid,
+        selector := some (.map [([0x7a], .uint 1), ([0x61], .array [.null, .bool true])]),
+        exts := [([0x62, 0x62], some (.text [0x78])), ([0x61], none)] },
+      { id := id16.map (· + 16), type := .update, exts := [([0x6b], some (.link sampleCid))] },
+      { id := id16.map (· + 32), type := .cancel }],
+    responses := [{ id := id16, status := 20, metadata := [(sampleCid, GS.Generated.Schema.goLinkActionPresent)] }],
+    blocks := [{ cid := sampleCid, data := [0x61, 0x62, 0x63] }] }
+
+example : wf idHash sampleMsg = true := by decide +kernel
 
 end GS.C11
